@@ -109,7 +109,9 @@ pub(crate) fn extend_node_properties_from_store(
             let key_len = u32::from_be_bytes(key[5..9].try_into().unwrap()) as usize;
             let key_name = String::from_utf8(key[9..9 + key_len].to_vec()).ok()?;
 
-            if !props.contains_key(&key_name) {
+            // Overwrites sunk by later compactions are stored as additional entries with the
+            // same key, newest first; keep the first one like the single-key read does.
+            if !props.contains_key(&key_name) && !to_fetch.iter().any(|(k, _)| *k == key_name) {
                 to_fetch.push((key_name, cursor.payload().ok()?));
             }
 
@@ -162,7 +164,9 @@ pub(crate) fn extend_edge_properties_from_store(
             let key_len = u32::from_be_bytes(key[13..17].try_into().unwrap()) as usize;
             let key_name = String::from_utf8(key[17..17 + key_len].to_vec()).ok()?;
 
-            if !props.contains_key(&key_name) {
+            // Overwrites sunk by later compactions are stored as additional entries with the
+            // same key, newest first; keep the first one like the single-key read does.
+            if !props.contains_key(&key_name) && !to_fetch.iter().any(|(k, _)| *k == key_name) {
                 to_fetch.push((key_name, cursor.payload().ok()?));
             }
 
